@@ -296,3 +296,161 @@ Proof.
     cbn [f_rcomplete vmdk_fmt vmdk_rcomplete];
     (erewrite parse_descriptor_eq by (cbn [i_regs rget rname_beq]; reflexivity)); reflexivity.
 Qed.
+
+(* ---------------------------------------------------------------- the chunk that completes the header *)
+Lemma eat_T0 st d x c :
+  blen st < 64 -> (blen d < 4 -> d = st) ->
+  eat_chunk vmdk_fmt (S0 st d x) c =
+  let s1 := T0 (st ++ c) (btake 512 (st ++ c)) (d0_next st d c) x in
+  match vmdk_post s1 with
+  | (s2, Some e) => (s2, Some e)
+  | (s2, None) =>
+    match settle eat_fuel vmdk_fmt c [0%nat; 1%nat] s2 with
+    | (s3, Some e) => (s3, Some e)
+    | (s3, None) => run_callbacks vmdk_fmt (newly_complete (if 4 <=? blen d then [1%nat] else []) (i_regs s3)) s3
+    end
+  end.
+Proof.
+  intros Hst Hd. unfold eat_chunk, do_capture, S0, set_pos, set_regs.
+  cbn [i_pos i_regs i_fin i_next i_checks i_ext].
+  rewrite (capture0 st d c Hst Hd). rewrite flen_blen, <- blen_app.
+  cbn [f_post vmdk_fmt]. unfold T0. cbv zeta.
+  unfold complete_ids. cbn [filter snd fst ids map].
+  rewrite rcomplete_hreg, rcomplete_d0reg. replace (64 <=? blen st) with false by lia.
+  destruct (4 <=? blen d); reflexivity.
+Qed.
+
+Lemma stepT_bad st d x c :
+  blen st < 64 -> (blen d < 4 -> d = st) -> 64 <= blen st + blen c ->
+  let h := btake 512 (st ++ c) in let u := btake 64 h in
+  (hdr_sig_ok u = false /\ forallb ascii_text h = false) \/ (hdr_sig_ok u = true /\ hdr_ver_ok u = false) ->
+  eat_chunk vmdk_fmt (S0 st d x) c = (T0 (st ++ c) h (d0_next st d c) x, Some ImageFormatError).
+Proof.
+  intros Hst Hd Hc h u Hcase. rewrite (eat_T0 st d x c Hst Hd). cbv zeta. fold h.
+  assert (Hl : 64 <= blen h) by (subst h; rewrite blen_btake, blen_app; lia).
+  rewrite (post_bad (T0 (st ++ c) h (d0_next st d c) x) (hreg h)); [reflexivity|reflexivity|exact Hl| |exact Hcase].
+  rewrite rcomplete_hreg. lia.
+Qed.
+
+Lemma stepT_wrongloc st d x c :
+  blen st < 64 -> (blen d < 4 -> d = st) -> 64 <= blen st + blen c ->
+  let h := btake 512 (st ++ c) in let u := btake 64 h in
+  hdr_sig_ok u = true -> hdr_ver_ok u = true -> hdr_loc_ok u = false ->
+  eat_chunk vmdk_fmt (S0 st d x) c =
+  (if hdr_foot u then T0f (st ++ c) h (d0_next st d c) x else T0 (st ++ c) h (d0_next st d c) x, Some ImageFormatError).
+Proof.
+  intros Hst Hd Hc h u Hs Hv Ho. rewrite (eat_T0 st d x c Hst Hd). cbv zeta. fold h.
+  assert (Hl : 64 <= blen h) by (subst h; rewrite blen_btake, blen_app; lia).
+  rewrite (post_T0_wrongloc (st ++ c) h (d0_next st d c) x Hl Hs Hv Ho). reflexivity.
+Qed.
+
+Lemma bslice_beyond off len st : blen st <= off -> bslice off len st = [].
+Proof. intros H. unfold bslice. rewrite bskip_all by exact H. apply btake_nil. Qed.
+
+Lemma settle_S fuel (F : fmt vx) c known s :
+  settle (S fuel) F c known s =
+  match new_names known (i_regs s) with
+  | [] => (s, None)
+  | new =>
+    match do_capture new c s with
+    | (s1, Some e) => (s1, Some e)
+    | (s1, None) =>
+      match f_post F s1 with
+      | (s2, Some e) => (s2, Some e)
+      | (s2, None) => settle fuel F c (ids (i_regs s1)) s2
+      end
+    end
+  end.
+Proof. reflexivity. Qed.
+
+Lemma cap1_in only c pos n r :
+  mem_rname n only = true -> cap1 only c pos (n, r) = (n, if r_end r || negb (rcomplete r) then rcapture r c pos else r).
+Proof.
+  intros H. unfold cap1. destruct only as [|k t]; [discriminate|]. rewrite H. cbn [negb].
+  destruct (r_end r || negb (rcomplete r)); reflexivity.
+Qed.
+Lemma cap1_out only c pos n r : only <> [] -> mem_rname n only = false -> cap1 only c pos (n, r) = (n, r).
+Proof. intros Hne H. unfold cap1. destruct only as [|k t]; [contradiction|]. rewrite H. reflexivity. Qed.
+
+Lemma cap1_dreg_new only id dsz st c :
+  mem_rname R_descriptor only = true -> blen st <= 512 ->
+  cap1 only c (blen (st ++ c)) (R_descriptor, dreg id dsz []) = (R_descriptor, dreg id dsz (bslice 512 dsz (st ++ c))).
+Proof.
+  intros Hm Hst. rewrite (cap1_in _ _ _ _ _ Hm).
+  replace (@nil N) with (bslice 512 dsz st) by (apply bslice_beyond; lia).
+  rewrite blen_app, <- (flen_blen c), cap1_dreg. reflexivity.
+Qed.
+Lemma cap1_freg_new only c pos :
+  mem_rname R_footer only = true ->
+  cap1 only c pos (R_footer, freg 1536 []) = (R_footer, freg (pos - blen (btail 1536 c)) (btail 1536 c)).
+Proof.
+  intros Hm. rewrite (cap1_in _ _ _ _ _ Hm). change (r_end (freg 1536 [])) with true. cbn [orb].
+  unfold rcapture. change (r_end (freg 1536 [])) with true. cbn iota. rewrite cap_end_freg. reflexivity.
+Qed.
+
+(* the chunk is presented again to the regions post_process has just created *)
+Lemma settle_fresh foot0 st c h x dsz :
+  blen st <= 512 -> 64 <= blen h -> let u := btake 64 h in
+  hdr_sig_ok u = true -> hdr_ver_ok u = true -> hdr_loc_ok u = true -> hdr_foot u = has_foot foot0 ->
+  (foot0 = None \/ foot0 = Some (1536, [])) ->
+  settle eat_fuel vmdk_fmt c [0%nat; 1%nat] (S1 foot0 dsz (st ++ c) h [] x) =
+  (S1 (match foot0 with Some _ => Some (blen (st ++ c) - blen (btail 1536 c), btail 1536 c) | None => None end)
+      dsz (st ++ c) h (bslice 512 dsz (st ++ c)) x, None).
+Proof.
+  intros Hst Hl u Hs Hv Ho Hf Hfoot0.
+  change eat_fuel with (S (S 6)). rewrite settle_S.
+  destruct Hfoot0 as [-> | ->].
+  - unfold S1. cbn [i_regs new_names ids map filter snd fst hreg dreg r_id mem_nat Nat.eqb orb negb].
+    unfold do_capture. cbn [i_fin i_pos i_regs]. unfold set_regs. cbn [i_fin i_pos i_regs i_next i_checks i_ext].
+    rewrite capture_regs_map. cbn [map].
+    rewrite cap1_out by (try discriminate; reflexivity). rewrite cap1_dreg_new by (try reflexivity; exact Hst).
+    change {| i_pos := blen (st ++ c); i_regs := [(R_header, hreg h); (R_descriptor, dreg 2 dsz (bslice 512 dsz (st ++ c)))];
+              i_next := 3; i_fin := false; i_checks := [K_descriptor]; i_ext := x |}
+      with (S1 None dsz (st ++ c) h (bslice 512 dsz (st ++ c)) x).
+    cbn [f_post vmdk_fmt]. rewrite (post_S1 None dsz (st ++ c) h _ x Hl Hs Hv Ho Hf).
+    rewrite settle_S. reflexivity.
+  - unfold S1. cbn [i_regs new_names ids map filter snd fst hreg freg dreg r_id mem_nat Nat.eqb orb negb].
+    unfold do_capture. cbn [i_fin i_pos i_regs]. unfold set_regs. cbn [i_fin i_pos i_regs i_next i_checks i_ext].
+    rewrite capture_regs_map. cbn [map].
+    rewrite cap1_out by (try discriminate; reflexivity). rewrite cap1_dreg_new by (try reflexivity; exact Hst).
+    rewrite cap1_freg_new by reflexivity.
+    change {| i_pos := blen (st ++ c); i_regs := [(R_header, hreg h); (R_footer, freg (blen (st ++ c) - blen (btail 1536 c)) (btail 1536 c));
+                                                   (R_descriptor, dreg 3 dsz (bslice 512 dsz (st ++ c)))];
+              i_next := 4; i_fin := false; i_checks := [K_descriptor; K_footer]; i_ext := x |}
+      with (S1 (Some (blen (st ++ c) - blen (btail 1536 c), btail 1536 c)) dsz (st ++ c) h (bslice 512 dsz (st ++ c)) x).
+    cbn [f_post vmdk_fmt]. rewrite (post_S1 (Some (blen (st ++ c) - blen (btail 1536 c), btail 1536 c)) dsz (st ++ c) h _ x Hl Hs Hv Ho Hf).
+    rewrite settle_S. reflexivity.
+Qed.
+
+Lemma stepT_valid st d x c :
+  blen st < 64 -> (blen d < 4 -> d = st) -> 64 <= blen st + blen c ->
+  let h := btake 512 (st ++ c) in let u := btake 64 h in
+  hdr_sig_ok u = true -> hdr_ver_ok u = true -> hdr_loc_ok u = true ->
+  let dsz := hdr_dsz u in let dd := bslice 512 dsz (st ++ c) in
+  eat_chunk vmdk_fmt (S0 st d x) c =
+  (S1 (if hdr_foot u then Some (blen (st ++ c) - blen (btail 1536 c), btail 1536 c) else None) dsz (st ++ c) h dd
+      (if dsz =? blen dd then parse_ext dd x else x), None).
+Proof.
+  intros Hst Hd Hc h u Hs Hv Ho dsz dd. rewrite (eat_T0 st d x c Hst Hd). cbv zeta. fold h.
+  assert (Hl : 64 <= blen h) by (subst h; rewrite blen_btake, blen_app; lia).
+  rewrite (post_T0_valid (st ++ c) h (d0_next st d c) x Hl Hs Hv Ho). fold u. fold dsz.
+  pose (foot0 := if hdr_foot u then Some (1536, @nil N) else @None (N * bytes)).
+  change (S1 (if hdr_foot u then Some (1536, []) else None) dsz (st ++ c) h [] x) with (S1 foot0 dsz (st ++ c) h [] x).
+  assert (Hf0 : hdr_foot u = has_foot foot0) by (subst foot0; destruct (hdr_foot u); reflexivity).
+  assert (Hc0 : foot0 = None \/ foot0 = Some (1536, [])) by (subst foot0; destruct (hdr_foot u); auto).
+  rewrite (settle_fresh foot0 st c h x dsz ltac:(lia) Hl Hs Hv Ho Hf0 Hc0). fold dd.
+  assert (Hm : forall l id, l = [1%nat] \/ l = [] -> (id = 2%nat \/ id = 3%nat) ->
+                negb (mem_nat 0%nat l) = true /\ negb (mem_nat id l) = true).
+  { intros l id [->| ->] [->| ->]; split; reflexivity. }
+  assert (Hl4 : (if 4 <=? blen d then [1%nat] else []) = [1%nat] \/ (if 4 <=? blen d then [1%nat] else []) = [])
+    by (destruct (4 <=? blen d); auto).
+  subst foot0. destruct (hdr_foot u); unfold S1, newly_complete; cbn [filter snd fst i_regs];
+    rewrite ?rcomplete_hreg, ?rcomplete_freg, ?rcomplete_dreg; replace (64 <=? blen h) with true by lia;
+    cbn [hreg dreg r_id andb].
+  - destruct (Hm _ 3%nat Hl4 ltac:(auto)) as [Hm1 Hm2]. rewrite Hm1, Hm2. cbn [andb].
+    destruct (dsz =? blen dd); cbn [andb map filter fst run_callbacks f_rcomplete vmdk_fmt vmdk_rcomplete]; [|reflexivity].
+    (erewrite parse_descriptor_eq by (cbn [i_regs rget rname_beq]; reflexivity)); reflexivity.
+  - destruct (Hm _ 2%nat Hl4 ltac:(auto)) as [Hm1 Hm2]. rewrite Hm1, Hm2. cbn [andb].
+    destruct (dsz =? blen dd); cbn [andb map filter fst run_callbacks f_rcomplete vmdk_fmt vmdk_rcomplete]; [|reflexivity].
+    (erewrite parse_descriptor_eq by (cbn [i_regs rget rname_beq]; reflexivity)); reflexivity.
+Qed.
